@@ -6,11 +6,11 @@ Model of `core/circuitbreaker/breaker/{mod,stat,slow_request,error_ratio,error_c
 namespace Sentinel
 
 inductive BState where
-  | closed | halfOpen | open
+  | closed | halfOpen | opn
   deriving Repr, DecidableEq, Inhabited
 
 def BState.toStr : BState → String
-  | .closed => "Closed" | .halfOpen => "HalfOpen" | .open => "Open"
+  | .closed => "Closed" | .halfOpen => "HalfOpen" | .opn => "Open"
 
 inductive BStrategy where
   | slowRatio | errorRatio | errorCount
@@ -67,15 +67,15 @@ def tryPass (b : Breaker) (nowMs : Nat) : Breaker × Bool × List BEvent × Bool
   match b.state with
   | .closed => (b, true, [], false)
   | .halfOpen => (b, false, [], false)
-  | .open =>
+  | .opn =>
     if nowMs ≥ b.nextRetry then
-      ({ b with state := .halfOpen }, true, [⟨.halfOpen, .open, b.rule.id, "-"⟩], true)
+      ({ b with state := .halfOpen }, true, [⟨.halfOpen, .opn, b.rule.id, "-"⟩], true)
     else (b, false, [], false)
 
 /-- the exit handler registered by `from_open_to_half_open`: a blocked probe sends the breaker back to Open
 (the retry deadline is not renewed) -/
 def rollback (b : Breaker) (blocked : Bool) : Breaker × List BEvent :=
-  if blocked && b.state == .halfOpen then ({ b with state := .open }, [⟨.open, .halfOpen, b.rule.id, "1"⟩])
+  if blocked && b.state == .halfOpen then ({ b with state := .opn }, [⟨.opn, .halfOpen, b.rule.id, "1"⟩])
   else (b, [])
 
 /-- sums over `all_counter()` = the slots that are not deprecated now -/
@@ -92,13 +92,29 @@ def snapStr (x : F64) : String :=
   let s := x.toStr
   if s.endsWith "/1" then (s.dropEnd 2).toString else s
 
+/-- does this completion count against the breaker: slow for the slow-ratio strategy, failed for the error strategies -/
+def counts (b : Breaker) (rt : Nat) (err : Bool) : Bool :=
+  match b.rule.strategy with
+  | .slowRatio => decide (rt > b.rule.maxRt)
+  | _ => err
+
+/-- the ring after recording the completion in the current bucket (`none` if `current_counter()` failed) -/
+def recorded (b : Breaker) (nowMs rt : Nat) (err : Bool) : Option (List (Slot BCounter)) :=
+  ringWrite BCounter.zero b.rule.geo b.ring nowMs
+    (fun c => { target := if b.counts rt err then c.target + 1 else c.target, total := c.total + 1 })
+
+/-- has the threshold been met, given the window totals (target, total)? with the snapshot value reported -/
+def thresholdMet (b : Breaker) (target total : Nat) : Bool × String :=
+  match b.rule.strategy with
+  | .errorCount => (decide (total ≥ b.rule.minReq) && decide (target ≥ b.rule.thr.toNatFloor), toString target)
+  | _ =>
+    let ratio := F64.div (F64.ofNat target) (F64.ofNat total)
+    (decide (total ≥ b.rule.minReq) && !F64.lt ratio b.rule.thr, snapStr ratio)
+
 /-- `on_request_complete(rt, err)` -/
 def onComplete (b : Breaker) (nowMs rt : Nat) (err : Bool) : Breaker × List BEvent :=
-  let hit := match b.rule.strategy with
-    | .slowRatio => decide (rt > b.rule.maxRt)
-    | _ => err
-  match ringWrite BCounter.zero b.rule.geo b.ring nowMs
-      (fun c => { target := if hit then c.target + 1 else c.target, total := c.total + 1 }) with
+  let hit := b.counts rt err
+  match b.recorded nowMs rt err with
   | none => (b, [])          -- `current_counter()` failed: logged, nothing else happens
   | some ring' =>
     let b := { b with ring := ring' }
@@ -106,18 +122,14 @@ def onComplete (b : Breaker) (nowMs rt : Nat) (err : Bool) : Breaker × List BEv
     match b.state with
     | .halfOpen =>
       if hit then
-        ({ b with state := .open, nextRetry := nowMs + b.rule.retryMs }, [⟨.open, .halfOpen, b.rule.id, "1"⟩])
+        ({ b with state := .opn, nextRetry := nowMs + b.rule.retryMs }, [⟨.opn, .halfOpen, b.rule.id, "1"⟩])
       else
         ((({ b with state := .closed } : Breaker)).resetMetric nowMs, [⟨.closed, .halfOpen, b.rule.id, "-"⟩])
     | .closed =>
-      let (trip, snap) := match b.rule.strategy with
-        | .errorCount => (decide (total ≥ b.rule.minReq) && decide (target ≥ b.rule.thr.toNatFloor), toString target)
-        | _ =>
-          let ratio := F64.div (F64.ofNat target) (F64.ofNat total)
-          (decide (total ≥ b.rule.minReq) && !F64.lt ratio b.rule.thr, snapStr ratio)
-      if trip then ({ b with state := .open, nextRetry := nowMs + b.rule.retryMs }, [⟨.open, .closed, b.rule.id, snap⟩])
+      let (trip, snap) := b.thresholdMet target total
+      if trip then ({ b with state := .opn, nextRetry := nowMs + b.rule.retryMs }, [⟨.opn, .closed, b.rule.id, snap⟩])
       else (b, [])
-    | .open => (b, [])
+    | .opn => (b, [])
 
 end Breaker
 
